@@ -446,14 +446,15 @@ pub fn run(ctx: &mut Ctx) {
     ctx.cases("exhaustive-short", if thorough { 0.45 } else { 0.25 }, |ctx, _rng| {
         // one "case" = a block of 4096 consecutive strings
         let local = ctx.case & ((1 << 40) - 1); // = shard + k * nshards
-        let start = local * 4096;
+        let block: u64 = if ctx.lane == "M" { 48 } else { 4096 };
+        let start = local * block;
         if start >= limit {
             complete = true; // every earlier block of this shard has been enumerated
             ctx.stats.evaluations -= 1;
             ctx.stop_family = true;
             return;
         }
-        for idx in start..(start + 4096).min(limit) {
+        for idx in start..(start + block).min(limit) {
             let s: Vec<u8> = if idx < 256 {
                 vec![idx as u8]
             } else if idx < 256 + 65536 {
@@ -469,7 +470,7 @@ pub fn run(ctx: &mut Ctx) {
                 ctx.nontrivial(hash_bytes(&s));
             }
         }
-        ctx.stats.evaluations += 4095;
+        ctx.stats.evaluations += block - 1;
     });
     ctx.count_n("cover:exhaustive-strings", done);
     let _ = (shard, n);
